@@ -70,7 +70,9 @@ pub fn gen_clients(r: &mut Rng, n: usize, with_invalid: bool, max_reqs: usize) -
                     conflict_name_of_shared(&shared[0], t)
                 } else {
                     shared64_body = Some(t);
-                    expected = Exp::OfBody(3);
+                    // (matching, stale, or "what the other shared body hashes to": two clients may
+                    // well write byte-identical content, the second one on a stale view)
+                    expected = *r.pick(&[Exp::OfBody(3), Exp::Initial, Exp::None, Exp::Learned, Exp::OfShared(1 - t), Exp::OfBody(3)]);
                     shared[0].clone()
                 }
             } else {
